@@ -237,6 +237,14 @@ fn lib_params(p: &Prot, rp: &RefProtection) -> Option<S2kParams> {
 /// Negative trials on a serialised locked key: `library accepts => reference accepts`.
 #[allow(clippy::too_many_arguments)]
 fn negatives(ctx: &mut Ctx, label: &str, tag: u8, locked_body: &[u8], pw: &[u8], p: &Prot, flips_step: usize, replay: &serde_json::Value) {
+    // Protection with a 16-bit checksum (usage 255 / legacy cipher octet) accepts a wrong password or
+    // a tampered blob with inherent probability about 2^-16 per trial (the library additionally
+    // compares the checksum of the *re-serialised* parsed material, so its collisions need not be
+    // the reference's). A single acceptance therefore proves nothing: for these usages a violation is
+    // reported only when 3 or more trials of one case are accepted (a missing check accepts nearly
+    // always; chance gives 3 of ~2000 with probability < 1e-5).
+    let weak16 = !matches!(p.usage, 253 | 254);
+    let mut weak_accepts: Vec<String> = vec![];
     // wrong passwords
     for w in wrong_passwords(pw) {
         let Ok(k) = Sk::parse(tag, locked_body) else { return };
@@ -247,6 +255,9 @@ fn negatives(ctx: &mut Ctx, label: &str, tag: u8, locked_body: &[u8], pw: &[u8],
             let refok = RefSecret::parse(locked_body).and_then(|r| r.unlock(tag, &w)).map(|r| r.is_ok()).unwrap_or(false);
             if refok {
                 ctx.tally("neg.inherent_collision", 1);
+            } else if weak16 {
+                ctx.tally("neg.weak16.accepted_once", 1);
+                weak_accepts.push(format!("wrong password {}", hexs(&w)));
             } else {
                 ctx.violation(
                     format!("C08/wrong-password-accepted/usage-{}", usage_class(p.usage)),
@@ -285,6 +296,9 @@ fn negatives(ctx: &mut Ctx, label: &str, tag: u8, locked_body: &[u8], pw: &[u8],
             } else if refok {
                 // either an inherent 16-bit collision or a bit neither implementation binds
                 ctx.tally("neg.flip.accepted_by_both", 1);
+            } else if weak16 {
+                ctx.tally("neg.weak16.accepted_once", 1);
+                weak_accepts.push(format!("flip bit {pos}"));
             } else {
                 ctx.violation(
                     format!("C08/tampered-key-unlocks/usage-{}/{region}", usage_class(p.usage)),
@@ -294,6 +308,13 @@ fn negatives(ctx: &mut Ctx, label: &str, tag: u8, locked_body: &[u8], pw: &[u8],
             }
         }
         pos += flips_step;
+    }
+    if weak_accepts.len() >= 3 {
+        ctx.violation(
+            format!("C08/weak16-check-missing/usage-{}", usage_class(p.usage)),
+            format!("{label}: {} negative trials of one key were accepted (16-bit checksum protection): {:?}", weak_accepts.len(), &weak_accepts[..3]),
+            replay.clone(),
+        );
     }
 }
 
@@ -467,7 +488,8 @@ pub fn run(ctx: &mut Ctx) {
                         }
                         // negatives
                         let step = if quick { 7 } else if slow_key { 13 } else { 1 };
-                        if gi % (if quick { 4 } else { 2 }) == 0 || p.usage == 253 {
+                        let heavy = matches!(p.s2k, RefS2k::Iterated { count, .. } if count > 0x70);
+                        if !heavy && (gi % (if quick { 4 } else { 2 }) == 0 || p.usage == 253) {
                             negatives(ctx, kname, tag, &body, &pw, p, step, &replay);
                         }
                         if gi % 97 == 0 {
@@ -538,4 +560,34 @@ pub fn run(ctx: &mut Ctx) {
 
 fn orig_pub_len(body: &[u8]) -> usize {
     RefPub::parse_prefix(body).map(|(_, n)| n).unwrap_or(0)
+}
+
+/// Debug aid: `mon DBG08 --out <hex body>:<hex pw>:<tag>` prints both views of a locked key.
+pub fn debug(arg: &str) {
+    let parts: Vec<&str> = arg.split(':').collect();
+    let body = hex::decode(parts[0]).unwrap();
+    let pw = hex::decode(parts[1]).unwrap();
+    let tag: u8 = parts[2].parse().unwrap();
+    let rs = RefSecret::parse(&body).unwrap();
+    println!("ref protection {:?}", rs.protection);
+    if let RefProtection::MalleableCfb { cipher, s2k, iv } | RefProtection::Cfb { cipher, s2k, iv } = &rs.protection {
+        let key = s2k.derive(&pw, crate::rfc::sym::key_size(*cipher).unwrap()).unwrap();
+        let mut d = rs.data.clone();
+        crate::rfc::sym::cfb_decrypt(*cipher, &key, iv, &mut d);
+        println!("ref plaintext {}", hex::encode(&d));
+        println!("ref sum16 of material {:04x}", crate::rfc::sum16(&d[..d.len() - 2]));
+    }
+    println!("ref unlock {:?}", rs.unlock(tag, &pw).map(|r| r.map(|m| hex::encode(m))));
+    match Sk::parse(tag, &body) {
+        Ok(k) => match k.unlock(&Password::from(&pw[..])) {
+            Ok(p) => {
+                let mut k2 = k.clone();
+                k2.remove(&Password::from(&pw[..])).unwrap();
+                println!("lib unlock ok; unlocked body {}", hex::encode(k2.body()));
+                let _ = p;
+            }
+            Err(e) => println!("lib unlock err {e}"),
+        },
+        Err(e) => println!("lib parse err {e}"),
+    }
 }
